@@ -61,7 +61,7 @@ def r1(cx):
             if sw.kind == "switch": ok_edge = variant_edge(sw, 0)
     if ok_edge is None: raise AnchorMissing("handle: `?` on the parser result")
     cn = [t for t in h.call_news]
-    cx.floor("C06.R1", "Call::new sites in handle()", len(cn), 2)
+    cx.floor("C06.R1", "Call::new sites in handle()", len(cn), 1)
     for i, t in enumerate(cn):
         cx.check(cfg.edge_dominates(ok_edge, t.bb), "C06.R1", "varlink:handle:Call::new#%d:after-parse" % i, "%s %s" % (t.sp, body.path),
                  "a Call (the only way to reply) is created on a path that did not pass a successful parse", note_ok="dominated by the parser's Ok edge")
